@@ -31,7 +31,7 @@ from __future__ import absolute_import
 
 import time
 
-from gevent import ssl
+from slimta.smtp.io import create_default_context
 from pycares.errno import ARES_ENOTFOUND, ARES_ENODATA
 
 from slimta import logging
@@ -172,7 +172,7 @@ class MxSmtpRelay(Relay):
         self._relayers = {}
         self._client_kwargs = client_kwargs
         self._client_kwargs['context'] = context or \
-            ssl.create_default_context()
+            create_default_context()
 
     def _get_rcpt_domain(self, envelope):
         rcpt = envelope.recipients[0]
